@@ -142,6 +142,13 @@ func (n *Net) ReleaseHeld() {
 // an operator-supplied one (user Restore).
 func (o *Oracles) ExpectUserSnapshot(hash uint64) { o.userSnaps[hash] = 0 }
 
+// UserSnapshotWrittenAt returns the burned index at which an operator-supplied
+// state (by hash) was written as a snapshot, 0 if it never was.
+func (o *Oracles) UserSnapshotWrittenAt(hash uint64) uint64 { return o.userSnaps[hash] }
+
+// UserSnapshotWrittenMs: the virtual instant of that write.
+func (o *Oracles) UserSnapshotWrittenMs(hash uint64) int64 { return o.userSnapMs[hash] }
+
 // LeaderOf returns the server observed as leader of a term ("" if none).
 func (o *Oracles) LeaderOf(term uint64) string { return o.leaderOf[term] }
 
